@@ -34,6 +34,13 @@ def ungated(F, R, rule='B.C06.ungated'):
                 gates.append((x, 'ticking'))
             if t['k'] == 'call' and (callee_path(t) or '') == 'sound::PlaybackState::is_advancing':
                 gates.append((x, 'is_advancing'))
+        # every piece of time-keeping of one pass advances by the same duration (the chunk's): a per-frame `dt` handed to one
+        # of them makes that one run `chunk length` times too slowly
+        durs = sorted(set(describe(b, t['args'][1], depth=8, at=bb) for bb, t in ups if ' as Some' not in describe(b, t['args'][0], depth=3, at=bb)))
+        if len(ups) > 1:
+            R.check(len(durs) == 1, rule, '%s|same-duration' % b.path,
+                    '%s advances its parameters / state machine / start time by different durations in one pass: %s' % (b.path, [d[:50] for d in durs]),
+                    detail={'fn': b.path, 'duration': durs[0][:80] if durs else None}, where=b.file, nontrivial=False)
         if not gates:
             continue
         for bb, t in ups:
@@ -78,6 +85,10 @@ def run(ctx, R, tier):
     # 'a new tween begins from the current, possibly mid-tween, value' for the pause / resume / stop fades
     from .c03 import fade_continuity
     fade_continuity(F, R, rule='B.C06.fade-continuity')
+    defaults_match(F, R)
+    # 'with the built-in easings the value never leaves the interval': their powers stay inside their domain (A.singular)
+    from ..enginea import run_singular_only
+    run_singular_only(R, F, lambda fn: fn.startswith('tween::'), floor=2)
 
 
 def cover(F, R):
@@ -323,6 +334,12 @@ def timing_features(b):
     # the Delayed arm subtracts from_secs_f64(dt)
     sub = [describe(b, t['args'][1]) for bb, t in b.calls() if (callee_path(t) or '') == 'std::time::Duration::saturating_sub']
     f['delay_step'] = sub
+    # the Delayed arm: "has the delay run out?" is asked BEFORE this update's dt is taken off (the tween starts in the update
+    # after the one in which the delay reaches zero; asked after the subtraction it starts one update early)
+    from ..rules import order_ok
+    zs = [bb for bb, t in b.calls() if (callee_path(t) or '') == 'std::time::Duration::is_zero' and 'duration' not in describe(b, t['args'][0], depth=4, at=bb)]
+    ss = [bb for bb, t in b.calls() if (callee_path(t) or '') == 'std::time::Duration::saturating_sub']
+    f['delay_order'] = 'test-then-subtract' if zs and ss and order_ok(b, zs, ss) else ('subtract-then-test' if zs and ss else 'none')
     eq = [describe(b, t['args'][1]) for bb, t in b.calls() if t['callee'].get('name') == 'eq' and 'WhenToStart' in ' '.join(t['callee'].get('args', []))]
     f['clock_start'] = eq
     return f
@@ -336,7 +353,7 @@ def sib(F, R):
     fa, fb = timing_features(a), timing_features(b)
     want = {'calls': None, 'start_arms': ['ClockTime', 'Delayed', 'Immediate'],
             'arith': [('accumulate', 'Add', 'dt'), ('finish', 'Ge', 'duration.as_secs_f64')],
-            'delay_step': ['std::time::Duration::from_secs_f64(dt)']}
+            'delay_step': ['std::time::Duration::from_secs_f64(dt)'], 'delay_order': 'test-then-subtract'}
     for k in sorted(fa):
         same = fa[k] == fb[k]
         exp = want.get(k)
@@ -358,3 +375,39 @@ def sib(F, R):
         if ge is True:
             ok = len(st) == 1 and describe_rv(b, st[0]['rv']).endswith('.values.1')
     R.check(ok, 'B.C06.sib', 'tweener-finish', 'the tweener does not land exactly on its target when time >= duration', detail='value = values.1')
+
+
+def defaults_match(F, R, rule='B.C06.defaults'):
+    """Builder-to-constructor hand-over: where a struct field is initialised with `Parameter::new(<value>, <X>::DEFAULT_<NAME>)`
+    - the fallback the parameter holds while its value does not resolve - NAME is the field's own name.  (A neighbour's
+    default is a copy-paste slip that only shows with an unresolved modulator / listener link: a compressor whose ratio
+    falls back to the threshold's 0.0 outputs NaN.)"""
+    import re
+    from ..paths import origin_def
+    from ..facts import is_const
+    n = 0
+    for b in F.bodies:
+        if b.krate != 'kira':
+            continue
+        for bb, si, s in b.stmts():
+            if not (s['k'] == 'assign' and s['rv']['k'] == 'agg' and s['rv'].get('ak') == 'adt' and s['rv'].get('fields')):
+                continue
+            for f, op in zip(s['rv']['fields'], s['rv']['ops']):
+                d, _ = origin_def(b, op)
+                if not (d and d[0] == 'call' and (callee_path(d[2]) or '') == P + '::new' and len(d[2]['args']) == 2):
+                    continue
+                dflt = d[2]['args'][1]
+                d2 = None
+                if not is_const(dflt):
+                    d2, _ = origin_def(b, dflt)
+                    if d2 and d2[0] == 'const':
+                        dflt = d2[1]
+                name = dflt.get('def') if isinstance(dflt, dict) else None
+                m = re.search(r'DEFAULT_([A-Z0-9_]+)$', name or '')
+                if not m:
+                    continue
+                n += 1
+                R.check(m.group(1).lower() == f.lower(), rule, '%s.%s' % (s['rv'].get('adt', '?').split('::')[-1], f),
+                        '%s initialises the parameter `%s` with the fallback %s (the default of another setting)' % (b.path, f, name),
+                        detail={'field': f, 'default': name}, where=b.where(bb))
+    R.floor(rule, n, 4)
